@@ -1238,7 +1238,7 @@ class SX:
         k = (fn.name, L['header'].name)
         r = self.loopinfo.get(k)
         if r is None:
-            r = self.classify_countdown(fn, L) or self.classify_digits(fn, L) or {'kind': 'generic'}
+            r = self.classify_countdown(fn, L) or self.classify_countup(fn, L) or self.classify_digits(fn, L) or {'kind': 'generic'}
             r['emits'] = any((self.is_handler_call(i) or (i.op == 'call' and (i.callee in self.emitters or i.callee in self.inline)))
                              for b in L['blocks'] for i in b.insts)
             self.loopinfo[k] = r
@@ -1341,6 +1341,151 @@ class SX:
         return {'kind': 'countdown', 'cnt': cnt, 'dec': dec, 'init': init, 'ptr': ptr, 'pinit': pinit, 'call': call,
                 'src': src, 'guard': c.pred, 'exit': L['exits'][0][1], 'extras': extras}
 
+    def classify_countup(self, fn, L):
+        """for (i = a; i < n; ++i) handler(.., c | p[i] | *q++)  -  the counting-up form of an emission loop (the bound is
+        loop invariant); summarised like the count-down form with the trip count max(n - a, 0)"""
+        H = L['header']
+        insts = [i for b in L['blocks'] for i in b.insts if i.op != 'dbg']
+        calls = [i for i in insts if i.op in ('call', 'invoke')]
+        if len(calls) != 1 or not self.is_handler_call(calls[0]) or any(i.op == 'store' for i in insts):
+            return None
+        if len(L['exits']) != 1 or L['exits'][0][0] is not H or len(L['latches']) != 1:
+            return None
+        t = H.term
+        if t.op != 'br' or 'f' not in t.d or t.ops[0].k != 'inst':
+            return None
+        c = fn.insts[t.ops[0].id]
+        if c.op != 'icmp' or c.pred not in ('slt', 'sgt'):
+            return None
+        a, b = (c.ops[0], c.ops[1]) if c.pred == 'slt' else (c.ops[1], c.ops[0])     # a < b
+        if fn.bmap[t.d['t']] not in L['blocks']:
+            return None
+        if a.k != 'inst':
+            return None
+        cnt = fn.insts[a.id]
+        if cnt.op != 'phi' or cnt.block is not H:
+            return None
+        inl = set(i.id for i in insts)
+        if b.k == 'inst' and b.id in inl:
+            return None                         # the bound must be loop invariant
+        latch = L['latches'][0]
+        init = step = None
+        for (bb, v) in cnt.incoming:
+            if bb == latch.name:
+                step = v
+            else:
+                if init is not None:
+                    return None
+                init = v
+        if step is None or init is None or step.k != 'inst':
+            return None
+        inc = fn.insts[step.id]
+        if inc.op != 'add' or inc.ops[0].key() != ('i', cnt.id) or inc.ops[1].k != 'ci' or inc.ops[1].ival != 1:
+            return None
+        call = calls[0]
+        ptr = pinit = None
+        extras = []
+        srcld = fn.inst_of(self.strip(fn, call.ops[1])) if call.ops[1].k == 'inst' else None
+        for i in H.insts:
+            if i.op != 'phi' or i.id == cnt.id:
+                continue
+            k = kind = init_v = None
+            for (bb, v) in i.incoming:
+                if bb == latch.name:
+                    g = fn.inst_of(v)
+                    if g is None or g.ops[0].key() != ('i', i.id):
+                        return None
+                    if g.op == 'getelementptr':
+                        st_ = g.d['gep']['steps']
+                        if len(st_) != 1 or st_[0]['k'] != 'index' or st_[0]['v'].get('k') != 'ci':
+                            return None
+                        k, kind = int(st_[0]['v'].get('v', 0)) * st_[0]['stride'], 'ptr'
+                    elif g.op == 'add' and g.ops[1].k == 'ci':
+                        k, kind = g.ops[1].ival, 'int'
+                    else:
+                        return None
+                else:
+                    if init_v is not None:
+                        return None
+                    init_v = v
+            if k is None or init_v is None:
+                return None
+            if srcld is not None and srcld.op == 'load' and srcld.ops[0].key() == ('i', i.id):
+                if kind != 'ptr' or k != 1:
+                    return None
+                ptr, pinit = i, init_v
+            else:
+                extras.append((i, kind, k))
+        if not fn.dominates_block(fn.bmap[t.d['t']], call.block):
+            return None
+        arg = call.ops[1]
+        src = 'const' if arg.k == 'ci' else None
+        idxbase = None
+        if src is None:
+            li = fn.inst_of(self.strip(fn, arg))
+            if li is not None and li.op == 'load' and ptr is not None and li.ops[0].key() == ('i', ptr.id):
+                src = 'ptr'
+            elif li is not None and li.op == 'load' and fn.inst_of(li.ops[0]) is not None and \
+                    fn.inst_of(li.ops[0]).op == 'getelementptr':
+                g = fn.inst_of(li.ops[0])
+                st_ = g.d['gep']['steps']
+                base = g.ops[0]
+                idx = self.strip(fn, V(st_[0]['v'])) if len(st_) == 1 and st_[0]['k'] == 'index' and st_[0]['stride'] == 1 else None
+                if idx is not None and idx.key() == ('i', cnt.id) and not (base.k == 'inst' and base.id in inl):
+                    src, idxbase = 'idx', base
+            if src is None:
+                return None
+        return {'kind': 'countup', 'cnt': cnt, 'inc': inc, 'init': init, 'bound': b, 'ptr': ptr, 'pinit': pinit,
+                'call': call, 'src': src, 'idxbase': idxbase, 'exit': L['exits'][0][1], 'extras': extras}
+
+    def run_countup(self, fn, L, info, st, frm):
+        H = L['header']
+        inits = self.phi_init(fn, H, st, frm)
+        i0 = inits.get(info['cnt'].id)
+        bv = self.val(st, info['bound'], fn)
+        if not isinstance(i0, Lin) or not isinstance(bv, Lin):
+            raise AnalysisBroken('c06_sx: bounds of the counting emission loop %s in %s are not integer forms' % (H.name, fn.name))
+        c0 = bv - i0
+        out = []
+        for s, t in self.branch(st, ('cmp', 'sgt', c0, Lin(0))):
+            if not t:
+                s.env[('i', info['cnt'].id)] = i0
+                if info['ptr'] is not None:
+                    s.env[('i', info['ptr'].id)] = inits.get(info['ptr'].id)
+                for (ph, kind, k) in info.get('extras', ()):
+                    s.env[('i', ph.id)] = inits.get(ph.id)
+                out.append((s, H, info['exit']))
+                continue
+            s.env[('i', info['cnt'].id)] = bv
+            if info['src'] == 'const':
+                seg = ('c', info['call'].ops[1].ival & 0xff, c0)
+            elif info['src'] == 'idx':
+                pb = self.val(s, info['idxbase'], fn)
+                seg = ('m', P(pb.base, pb.off + i0), c0) if isinstance(pb, P) else ('v', None, c0)
+                if isinstance(pb, P) and pb.base[0] == 'a' and self.alloca_size.get(pb.base) is not None:
+                    ok = s.cons.entails_le(0, pb.off + i0) and s.cons.entails_le(pb.off + bv, self.alloca_size[pb.base])
+                    nm = fn.var_name(V({'k': 'inst', 'id': info['cnt'].id})) or info['cnt'].name
+                    self.oblige('emit-read', fn, nm, ok, info['call'].where(),
+                                None if ok else 'the emission loop reads offsets %r..%r of a %d-byte local buffer'
+                                % (pb.off + i0, pb.off + bv, self.alloca_size[pb.base]))
+            else:
+                p0 = inits.get(info['ptr'].id)
+                seg = ('m', p0, c0) if isinstance(p0, P) else ('v', None, c0)
+            if info['ptr'] is not None:
+                p0 = inits.get(info['ptr'].id)
+                s.env[('i', info['ptr'].id)] = P(p0.base, p0.off + c0) if isinstance(p0, P) else None
+            for (ph, kind, k) in info.get('extras', ()):
+                v0 = inits.get(ph.id)
+                if isinstance(v0, Lin):
+                    s.env[('i', ph.id)] = v0 + c0 * k
+                elif isinstance(v0, P):
+                    s.env[('i', ph.id)] = P(v0.base, v0.off + c0 * k)
+                else:
+                    s.env[('i', ph.id)] = self.top(ph, fn)
+            self.emit(s, seg, c0)
+            out.append((s, H, info['exit']))
+        return out
+
     def classify_digits(self, fn, L):
         """do { *--p = f(u % b); u /= b; } while (u);   (also the pre-tested while (u) form)"""
         H = L['header']
@@ -1411,6 +1556,8 @@ class SX:
         info = self.classify(fn, L)
         if info['kind'] == 'countdown':
             return self.run_countdown(fn, L, info, st, frm)
+        if info['kind'] == 'countup':
+            return self.run_countup(fn, L, info, st, frm)
         if info['kind'] == 'digits':
             return self.run_digits(fn, L, info, st, frm)
         if self.static_exit is not None and not info['emits'] and self.static_exit(fn, L):
